@@ -6,6 +6,18 @@ props = [json.loads(l) for l in open(os.path.join(HERE, "properties.jsonl"))]
 ids = [p["id"] for p in props]
 
 CLAIMED = {
+ "C01": dict(level="model_checking", design="DESIGN.md §3 C01, §10",
+   text="Project.tla states DocumentedOps declaratively; Pipeline.tla models the session and TLC checks on it that the written document is DocumentedOps in every terminal state. TLC enumerates / random-walks projects (controllers, packages, files, prefixes, routes, verbs, hidden/deprecated); each is concretised into a Go module and run through the real CLI for both OpenAPI versions; the operations found in the written documents are compared with the expectation TLC printed.",
+   note="'Accepted' is bound to the observed exit status. Inputs come from the finite choice sets of spec/PipelineMC.tla. The OpenAPI document is read by a plain JSON walk (harness/cmd/vcheck/openapi.go). One recording per (tree, tier, seed) is shared by the pipeline family and cached under .cache/ keyed by the content hash of the repository and of the machinery. Trusted: TLC, Json module, the concretiser/projector pair.", technique='TLA+ model (Project.tla + Pipeline.tla) checked with TLC; TLC-generated projects concretised and run through the real CLI; hook traces validated by TLC (PipelineTrace.tla)'),
+ "C04": dict(level="model_checking", design="DESIGN.md §3 C04, §10",
+   text="EffectiveSecurity/SchemesDeclared/EnforceOk are operators of Project.tla; TLC enumerates every combination of method/controller/default security shapes x enforce x declared/undeclared scheme x both versions for one route (400 cases) plus random multi-route projects; the real CLI's documents and exit status are compared with the expectations, and the enforce/undeclared rules are checked on rejected runs.",
+   note="'Accepted' is bound to the observed exit status. Inputs come from the finite choice sets of spec/PipelineMC.tla. The OpenAPI document is read by a plain JSON walk (harness/cmd/vcheck/openapi.go). One recording per (tree, tier, seed) is shared by the pipeline family and cached under .cache/ keyed by the content hash of the repository and of the machinery. Trusted: TLC, Json module, the concretiser/projector pair.", technique='TLA+ model (Project.tla + Pipeline.tla) checked with TLC; TLC-generated projects concretised and run through the real CLI; hook traces validated by TLC (PipelineTrace.tla)'),
+ "C08": dict(level="model_checking", design="DESIGN.md §3 C08, §10",
+   text="Ordering (validate before write, 3.1 only after 3.0 validated) is an action property of Pipeline.tla checked by TLC and re-checked on the hook trace of every real run by PipelineTrace.tla; closure ($ref targets, placeholders vs path parameters, parameter uniqueness, response descriptions, enum value types, info/servers) is measured on the written bytes of every spec file that appears, by a plain JSON walk.",
+   note="'Accepted' is bound to the observed exit status. Inputs come from the finite choice sets of spec/PipelineMC.tla. The OpenAPI document is read by a plain JSON walk (harness/cmd/vcheck/openapi.go). One recording per (tree, tier, seed) is shared by the pipeline family and cached under .cache/ keyed by the content hash of the repository and of the machinery. Trusted: TLC, Json module, the concretiser/projector pair.", technique='TLA+ model (Project.tla + Pipeline.tla) checked with TLC; TLC-generated projects concretised and run through the real CLI; hook traces validated by TLC (PipelineTrace.tla)'),
+ "C13": dict(level="model_checking", design="DESIGN.md §3 C13, §10",
+   text="Pipeline.tla makes the code's non-determinism explicit (file visit order, FindByKind order, first-come serials) and TLC checks that the terminal artifacts do not depend on the schedule (and that they do when serials are handed out before sorting). On the code, every accepted multi-controller case is re-run in fresh processes (Go map randomisation) and under eight forced schedules replayed through the Permute hook; routes and spec bytes must be identical.",
+   note="'Accepted' is bound to the observed exit status. Inputs come from the finite choice sets of spec/PipelineMC.tla. The OpenAPI document is read by a plain JSON walk (harness/cmd/vcheck/openapi.go). One recording per (tree, tier, seed) is shared by the pipeline family and cached under .cache/ keyed by the content hash of the repository and of the machinery. Trusted: TLC, Json module, the concretiser/projector pair.", technique='TLA+ model (Project.tla + Pipeline.tla) checked with TLC; TLC-generated projects concretised and run through the real CLI; hook traces validated by TLC (PipelineTrace.tla)'),
  "C16": dict(level="exploration", design="DESIGN.md §3 C16, §10",
    text="Annotations.tla builds comment lines from token tables (names, values, JSON5 objects paired with their value, descriptions, free-text forms) and states the expected parse and the block rules as operators; TLC enumerates every single line and every block up to the bound, checks the design-level statements, and each block is parsed by the real AnnotationHolder through go/parser and gast.MapDocListToCommentBlock. A finite token grammar rather than all strings, hence exploration.",
    note="Trusted: the JSON5-text/value pairing table in the spec, the fixed unicode sample, TLC. Lines with empty value, characters outside the documented value alphabet or unbalanced braces count as 'not of the form'.",
